@@ -1,5 +1,9 @@
 // C11 — a crash at any point leaves a database the node can restart and continue from.
 //
+// (Second strengthening round: scenarios with LARGE blocks - thousands of UTXO creations, several
+// times ethdb.IdealBatchSize queued in the block batch - and a structural write-log monitor that is
+// evaluated on every logged append / reorg, see scenario.go:checkLog.)
+//
 // The harness drives the REAL block path of go-quai (worker, StateProcessor, BodyDb.Append,
 // HeaderChain.SetCurrentHeader, NewHeaderChain/loadLastState) through the zone mini node
 // over a logging database, records the top-level write sequence of every append and of a
@@ -66,7 +70,7 @@ func main() {
 	defer func() {
 		cw.Close()
 		rep.Exhaustive = true
-		rep.Note("crash points are enumerated exhaustively (every prefix of every logged write sequence) per scenario; scenarios (chains) are sampled")
+		rep.Note("crash points are enumerated exhaustively (every prefix of every logged write sequence: restart + consistency monitors) per scenario; scenarios (chains) are sampled; for actions that involve a large block the continuations (re-append / sibling / complete / return) are evaluated at the first and last crash point and after every write that changes the recovered head or the flat key space; the small appends of the large corpus scenario are covered by the structural write-log monitor only")
 		rep.Write(f.Out)
 	}()
 
@@ -78,6 +82,12 @@ func main() {
 	}
 	r := hlib.NewRng(f.Seed)
 	idx := 0
+	if v := os.Getenv("C11_ONLY"); v != "" { // development aid: a single corpus scenario
+		var i int
+		fmt.Sscan(v, &i)
+		runScenario(cw, i, corpusParams(i), -1)
+		return
+	}
 	for i := 0; i < nCorpus; i++ {
 		runScenario(cw, idx, corpusParams(i), -1)
 		idx++
@@ -91,6 +101,10 @@ func main() {
 	}
 	for _, be := range backends {
 		runOnEngine(be, corpusParams(0), f.Tier == "thorough")
+		// the large-block scenario on the real engine (whose Batch.ValueSize feeds any size-triggered
+		// write path): structural write-log monitor on every append / the reorg; crash points of the
+		// large append and of the reorg in thorough
+		runOnEngine(be, corpusParams(3), f.Tier == "thorough")
 	}
 	n := f.N
 	for i := 0; i < n; i++ {
@@ -114,12 +128,14 @@ func runOnEngine(be string, p scnParams, all bool) {
 		return
 	}
 	rep.Count("scenario-on-" + be)
+	reportLogFails(s, 0, be+":")
 	for ai, a := range s.Actions {
 		if ai < len(ref.Actions) && strings.Join(classSeq(a.Ops), ",") != strings.Join(classSeq(ref.Actions[ai].Ops), ",") {
 			rep.Fail("backend:write-sequence-differs", "top-level write class sequence on "+be+" differs from memorydb", caseJSON{ID: ai, Params: p, Action: ai})
 		}
-		// quick tier: the append of the first spending block and the reorg; thorough: every action
-		if all || ai == 2 || a.Kind == "reorg" {
+		// quick tier: the append of the first spending block and the reorg (small scenario; the large
+		// one is checked structurally only); thorough: every action
+		if all || (p.Big == 0 && (ai == 2 || a.Kind == "reorg")) {
 			enumerate(s, a, ai, ai)
 		}
 	}
@@ -138,8 +154,15 @@ func runScenario(cw *hlib.CaseWriter, idx int, p scnParams, only int) {
 	for _, n := range s.Notes {
 		rep.Fail("scenario:"+n, n, caseJSON{ID: idx * 100, Params: p})
 	}
+	reportLogFails(s, idx, "")
 	for ai, a := range s.Actions {
 		if only >= 0 && ai != only {
+			continue
+		}
+		// large-block scenario: the crash points of the large append and of the reorg across the
+		// large blocks are enumerated; its small appends are the same shapes as in the other scenarios
+		if p.OnlyBig && !s.isBigAction(a) {
+			rep.Count("action-not-enumerated(small block of the large scenario)")
 			continue
 		}
 		cid := idx*100 + ai
@@ -149,6 +172,21 @@ func runScenario(cw *hlib.CaseWriter, idx int, p scnParams, only int) {
 		if len(rep.Samples) < 3 && a.Kind == "reorg" {
 			rep.Sample(map[string]any{"id": cid, "params": p, "action": a.Kind, "write_sequence": classSeq(a.Ops), "crash_points": len(a.Ops) + 1})
 		}
+	}
+}
+
+// reportLogFails reports the failures of the structural write-log monitor (scenario.checkLog).
+func reportLogFails(s *scenario, idx int, prefix string) {
+	rep.Evaluations += s.NLogs
+	for i := 0; i < s.NLogs; i++ {
+		rep.Count("write-log-checked")
+	}
+	for _, lf := range s.LogFails {
+		sig := lf.Sig
+		if prefix != "" {
+			sig = "backend:" + sig
+		}
+		rep.Fail(sig, prefix+lf.What, caseJSON{ID: idx*100 + lf.Action, Params: s.P, Action: lf.Action})
 	}
 }
 
@@ -280,6 +318,15 @@ func touchesFlat(s *scenario, a *action) bool {
 func enumerate(s *scenario, a *action, cid, ai int) []kObs {
 	var out []kObs
 	nontriv := touchesFlat(s, a)
+	// large blocks: every crash point is restarted and checked for consistency; the (expensive:
+	// re-execution of a large block) continuations are evaluated at the first and last crash point
+	// and at every crash point whose surviving image differs from the previous one in the reported
+	// head or the flat key space (i.e. right after every write that changes either, whatever it is)
+	big := s.isBigAction(a)
+	if big {
+		rep.Count("action-with-large-block")
+	}
+	prevHead, prevFlat := -2, map[string]string(nil)
 	for k := 0; k <= len(a.Ops); k++ {
 		phase := phaseOf(a, k)
 		cj := caseJSON{ID: cid, Params: s.P, Action: ai, K: k, Phase: phase}
@@ -356,9 +403,16 @@ func enumerate(s *scenario, a *action, cid, ai int) []kObs {
 		z.Close()
 		db.release()
 		verdicts = append(verdicts, fmt.Sprintf("cons=%v", cons), fmt.Sprintf("state=%v", o.StateOK))
+		changed := o.Head != prevHead || prevFlat == nil || !flatEq(prevFlat, fl)
+		prevHead, prevFlat = o.Head, fl
+		conts := a.Conts
+		if big && !(k == 0 || k == len(a.Ops) || changed) {
+			conts = nil
+			rep.Count("continuations-skipped(large block, image unchanged in head and flat space)")
+		}
 
 		// (4) continue: append the interrupted block again / another valid successor
-		for ci, tgt := range a.Conts {
+		for ci, tgt := range conts {
 			co := continueTo(s, a, img, tgt)
 			o.Conts = append(o.Conts, co.contObs)
 			name := []string{"redo", "alternative"}[ci]
@@ -498,7 +552,62 @@ func coqIDs(ids []int) string {
 	return hlib.CoqList(items)
 }
 
+// projection of a scenario with large blocks onto a subset of the flat keys for the Coq case: every
+// key some block spends, and of every block's created keys at most 12 evenly spaced ones (first and
+// last included). Entries of the flat key space are independent of each other in the model (content,
+// check and exec are pointwise in the key), so the model run on the projected blocks must equal the
+// projection of the observations; the harness monitors always use the full key space.
+func (s *scenario) projection() map[int]bool {
+	if len(s.keyID) <= 80 {
+		return nil
+	}
+	keep := map[int]bool{}
+	for _, b := range s.Blocks {
+		for _, x := range b.Spent {
+			keep[x.U] = true
+		}
+		n := len(b.Created)
+		if n <= 12 {
+			for _, x := range b.Created {
+				keep[x.U] = true
+			}
+			continue
+		}
+		for j := 0; j < 12; j++ {
+			keep[b.Created[j*(n-1)/11].U] = true
+		}
+	}
+	return keep
+}
+
+func projKVs(l []kv, keep map[int]bool) []kv {
+	if keep == nil {
+		return l
+	}
+	var out []kv
+	for _, x := range l {
+		if keep[x.U] {
+			out = append(out, x)
+		}
+	}
+	return out
+}
+
+func projFlat(f [][2]int, keep map[int]bool) [][2]int {
+	if keep == nil {
+		return f
+	}
+	var out [][2]int
+	for _, x := range f {
+		if keep[x[0]] {
+			out = append(out, x)
+		}
+	}
+	return out
+}
+
 func coqCase(s *scenario, a *action, cid int, obs []kObs) string {
+	keep := s.projection()
 	ids := make([]int, 0, len(s.Blocks))
 	for id := range s.Blocks {
 		if id != 0 {
@@ -509,7 +618,7 @@ func coqCase(s *scenario, a *action, cid int, obs []kObs) string {
 	var bl []string
 	for _, id := range ids {
 		b := s.Blocks[id]
-		bl = append(bl, fmt.Sprintf("mkB %d %d %d %s %s", b.ID, b.Parent, b.Num, coqKVs(b.Created), coqKVs(b.Spent)))
+		bl = append(bl, fmt.Sprintf("mkB %d %d %d %s %s", b.ID, b.Parent, b.Num, coqKVs(projKVs(b.Created, keep)), coqKVs(projKVs(b.Spent, keep))))
 	}
 	var seq []string
 	for _, t := range a.Ops {
@@ -519,7 +628,7 @@ func coqCase(s *scenario, a *action, cid int, obs []kObs) string {
 	var table []string
 	tidx := map[string]int{}
 	flatIdx := func(f [][2]int) int {
-		t := coqFlat(f)
+		t := coqFlat(projFlat(f, keep))
 		if i, ok := tidx[t]; ok {
 			return i
 		}
